@@ -659,6 +659,22 @@ func (d *Driver) writeFiles(j *job, outs interface{}) interface{} {
 			d.tr.Emit("FileWritten", "job", j.key, "file", f.Key(), "path", d.rel(p))
 			continue
 		}
+		if strings.HasSuffix(f.Name, ".shd") {
+			// a shard written under its one-character index in a sub-directory: <out>_parts/<i>
+			base := strings.TrimSuffix(f.Name, ".shd")
+			if i := strings.LastIndex(base, "_"); i > 0 {
+				dir := path.Join(j.vj.FilesPath, base[:i]+"_parts")
+				os.MkdirAll(dir, 0755)
+				p = path.Join(dir, base[i+1:])
+			}
+			writeFile(p, fileContent(f.Key()))
+			d.fmu.Lock()
+			d.filePath[f.Key()] = canon(p)
+			d.fileJob[f.Key()] = j.key
+			d.fmu.Unlock()
+			d.tr.Emit("FileWritten", "job", j.key, "file", f.Key(), "path", d.rel(p))
+			continue
+		}
 		if strings.HasSuffix(f.Name, ".lnk2") {
 			// link -> sub/link -> deep/target, all relative
 			dir := path.Dir(p)
@@ -747,6 +763,16 @@ func (d *Driver) writeFiles(j *job, outs interface{}) interface{} {
 			// entries with one-character names, a file and a sub-directory
 			writeFile(path.Join(p, "0"), []byte("shard 0 of "+f.Key()+"\n"))
 			writeFile(path.Join(p, "x", "deep.dat"), []byte("below x of "+f.Key()+"\n"))
+			if !d.spec.Bare {
+				// an entry which is a relative link to a file beside the directory
+				// whose name begins with the directory's name
+				sib := p + "_sib.dat"
+				writeFile(sib, []byte("beside "+f.Key()+"\n"))
+				os.Symlink(path.Join("..", "..", path.Base(p)+"_sib.dat"), path.Join(p, "x", "sib.lnk"))
+				d.fmu.Lock()
+				d.extras[j.key+"##"+f.Name] = canon(sib)
+				d.fmu.Unlock()
+			}
 		} else {
 			writeFile(p, fileContent(f.Key()))
 			if !d.spec.Bare {
@@ -1823,6 +1849,19 @@ func (d *Driver) walkPost(where string, exp json.RawMessage, act interface{}) {
 			bad("nothing readable at the recorded location %s: %v", d.rel(s), err)
 		} else if string(b) != string(fileContent(ckey)) {
 			bad("the content at %s is not what the stage wrote", d.rel(s))
+		}
+		if strings.HasSuffix(f.Name, ".d") && !link {
+			// an entry of the directory that links to a file which stayed where it was
+			d.fmu.Lock()
+			sib := d.filePath[ckey] + "_sib.dat"
+			d.fmu.Unlock()
+			if li, err := os.Lstat(path.Join(s, "x", "sib.lnk")); err == nil && li.Mode()&os.ModeSymlink != 0 {
+				if _, err := os.Stat(sib); err == nil {
+					if b, err := os.ReadFile(path.Join(s, "x", "sib.lnk")); err != nil || string(b) != "beside "+ckey+"\n" {
+						bad("the entry x/sib.lnk of the directory %s, a relative link to %s (still there), leads nowhere after the move: %v", d.rel(s), d.rel(sib), err)
+					}
+				}
+			}
 		}
 		if !link && !inside(canon(s), canon(path.Join(d.psdir, "outs"))) {
 			bad("the recorded location %s is not under outs/", d.rel(s))
